@@ -30,7 +30,7 @@ PROPS = {
         "outside": ["K > 4 patterns", "the matching! macro (C06)"],
     },
     "C02": {
-        "mirsym": ["builder_chains", "call_path", "eval_dyn"],
+        "mirsym": ["builder_chains", "call_path", "eval_dyn", "eval_generic"],
         "bounds": {"quick": "segment lookup: S<=4 segments, repeat counts all values < 2^60 including 0, call index all 2^64; next_responder from an arbitrary counter value"},
         "assumptions": COMMON_KANI + COMMON_MIR + ["builder chains: IntoReturn / IntoReturnOnce / IntoReturner conversions are environment calls that record which conversion ran (their behaviour is decided under C12/C17)"],
         "outside": ["sum of repeat counts >= 2^63", "more than 4 segments"],
@@ -79,7 +79,7 @@ PROPS = {
         "outside": ["generic instantiation distinctness is a property of TypeId (trusted)", "message text"],
     },
     "C12": {
-        "mirsym": ["builder_chains"],
+        "mirsym": ["builder_chains", "eval_generic", "schedules"],
         "bounds": {"quick": "single-use value: all u8 payloads, 0..4 requests, then holder dropped (drop counter); repeatable value: 0..3 requests (clone + drop counters); composites (Option/Result/tuple/Vec/Poll over such leaves) in the external harness crate"},
         "assumptions": COMMON_KANI + ["sequential requests only: the race between threads is reduced to the atomic take() under the lock (MutexIsh::locked is an atomic block, see C10/C11 units)"],
         "outside": ["the builder refusing at compile time to quantify a non-Clone value (a fact about rustc's type checker)", "real threads racing for the value"],
@@ -135,5 +135,12 @@ PROPS = {
         "bounds": {"quick": "mismatch positions: the guard-free single-alternative members of pattern family G6 (C06 harnesses, diagnostics on) for all argument values; debug_inputs for 4 method shapes; pattern text/location for 3 invocations; which pattern index / operands an error names: E1 units"},
         "assumptions": COMMON_KANI + COMMON_MIR,
         "outside": ["rendered message text (formatting is stubbed under Kani and opaque for E1): wording, separators, '?' glyph", "file!()/line!() values beyond equality with the invocation site"],
+    },
+    "C20": {
+        "mirsym": ["mirror_wiring", "eval_dyn", "delegators"],
+        "bounds": {"quick": "every trait mirrored under src/mock (core, std, embedded-hal 1, tokio 1, futures-io 0.3: all features on) and every method of each: entry-point wiring, provided/required classification against the UPSTREAM trait definition (rust-src / cargo registry sources), helper impl = required methods only, MockFnInfo flags; fall-through decisions for unmentioned provided methods: eval_dyn table"},
+        "assumptions": COMMON_MIR + ["upstream trait definitions are read from the installed rust-src and the cargo registry sources (the versions Cargo.lock pins)",
+                                     "structural obligations over the MIR of the generated impls (callee identity per method), no symbolic inputs are needed for wiring"],
+        "outside": ["the differential half of the property (driving write_all / read_exact / read_to_end / read_line / Hasher::write_u32 / delay_ms / format! over scripted required methods and comparing with a plain struct): the bundled traits take &mut self, on whose polonius-based expansion Kani does not terminate, and the upstream provided bodies (std::io with io::Error) are out of reach of both engines (measured, DESIGN section 1)"],
     },
 }
